@@ -191,8 +191,14 @@ let () =
   else begin
     let lines = List.filter (fun l -> l <> "") (read_lines stdin) in
     let total = List.fold_left (fun a l -> a + cost l) 0 lines in
-    let want = (try int_of_string (Sys.getenv "VERIF_WORKERS") with _ -> 8) in
-    let k = max 1 (min want (total / 40)) in
+    (* default: one worker per processor listed in /proc/cpuinfo, at least 4, at most 16 *)
+    let ncpu = (try
+        let ic = open_in "/proc/cpuinfo" in
+        let n = List.length (List.filter (fun l -> String.length l >= 9 && String.sub l 0 9 = "processor") (read_lines ic)) in
+        close_in ic; n
+      with _ -> 8) in
+    let want = (try int_of_string (Sys.getenv "VERIF_WORKERS") with _ -> max 4 (min 16 ncpu)) in
+    let k = max 1 (min want (total / 30)) in
     if k = 1 then begin
       (* small job: in-process *)
       let tmp = Filename.temp_file "c29-" ".in" in
